@@ -27,9 +27,12 @@ def gen_dense(rng):
 def gen_dense_general(rng):
   rank = rng.randint(2, 4)
   shape = [rng.randint(1, 3) for _ in range(rank)]
-  naxes = rng.randint(1, min(2, rank - 1))
+  if rng.random() < 0.4:
+    shape = [rng.choice([2, 3])] * rank          # equal sizes: a permuted contraction is silent, not a shape error
+  naxes = rng.randint(1, min(3, rank - 1))
   axes = sorted(rng.sample(range(rank), naxes))
-  axis = [a if rng.random() < 0.5 else a - rank for a in axes]
+  # the axes may be written in any order; the kernel dimensions follow the contracted axes in ascending order
+  axis = [a if rng.random() < 0.5 else a - rank for a in rng.sample(axes, len(axes))]
   feats = [rng.randint(1, 3) for _ in range(rng.randint(1, 2))]
   return {'layer': 'dense_general', 'x': ints(rng, shape), 'kernel': ints(rng, [shape[a] for a in axes] + feats), 'bias': ints(rng, feats), 'axis': axis, 'features': feats,
           'use_bias': rng.random() < 0.7}
